@@ -8,7 +8,8 @@ def gen_history(rng, profile=None, max_ops=40):
     p = {'pressure': 0.6, 'identity': 0.3, 'affinity': 0.4, 'failure': 0.4, 'partitions': 0.3,
          'lease': 0.2, 'traits': 0.3, 'alloc': 0.5, 'raw_remove': 0.1, 'renew': 0.1, 'once': 0.1,
          'blacklist': 0.15, 'maxutil': 0.15, 'prio0': 0.15, 'deep': 0.0, 'move': 0.03, 'few_shapes': 0.0,
-         'scenarios': 0.0, 'many_allocs': 0, 'sparse_demand': 0.0, 'frozen': 0.25, 'restore': 0.05}
+         'scenarios': 0.0, 'many_allocs': 0, 'sparse_demand': 0.0, 'frozen': 0.25, 'restore': 0.05,
+         'frozen_evict': 0.0}
     if profile:
         p.update(profile)
     ops = []
@@ -163,6 +164,19 @@ def gen_history(rng, profile=None, max_ops=40):
                 if rng.random() < 0.85:
                     ops.append(['SetValidUntil', sv, now[0] + rng.choice([0, 1, 2])])
             ops.append(['SetRenew', n])
+            ops.append(['Schedule'])
+            continue
+        if srv and rng.random() < p['frozen_evict']:
+            # a server is frozen while it hosts instances; a more urgent instance then arrives under capacity pressure:
+            # the eviction scan must not take room on the frozen server
+            n = rng.choice(srv)
+            ops.append(['Schedule'])
+            st['servers'][n]['state'] = 2
+            ops.append(['SetState', n, 2, now[0]])
+            a = new_app()
+            ops[-1][3]['prio'] = 60
+            ops[-1][3]['demand'] = [base * rng.randint(1, 3), base * rng.randint(1, 3), base * rng.randint(1, 3)]
+            ops[-1][3]['traits'] = 0
             ops.append(['Schedule'])
             continue
         if srv and rng.random() < p['restore'] * 0.4:
